@@ -2,7 +2,7 @@
    Numbers travel as signed hexadecimal ("-1f", "0"); lists as comma-separated items ("" = empty). *)
 open Model
 
-let rec pos_of_bits (s : string) (i : int) (acc : positive option) : positive option =
+let rec pos_of_bits (s : Stdlib.String.t) (i : int) (acc : positive option) : positive option =
   (* s is a binary string, most significant first; builds the positive *)
   if i >= String.length s then acc
   else
@@ -12,7 +12,7 @@ let rec pos_of_bits (s : string) (i : int) (acc : positive option) : positive op
       | Some p -> Some (if b then XI p else XO p) in
     pos_of_bits s (i + 1) acc'
 
-let bits_of_hex (h : string) : string =
+let bits_of_hex (h : Stdlib.String.t) : Stdlib.String.t =
   let b = Buffer.create (4 * String.length h) in
   String.iter (fun c ->
       let v = match c with
@@ -23,14 +23,14 @@ let bits_of_hex (h : string) : string =
       for k = 3 downto 0 do Buffer.add_char b (if (v lsr k) land 1 = 1 then '1' else '0') done) h;
   Buffer.contents b
 
-let z_of_hex (s : string) : z =
+let z_of_hex (s : Stdlib.String.t) : z =
   let neg = String.length s > 0 && s.[0] = '-' in
   let h = if neg then String.sub s 1 (String.length s - 1) else s in
   match pos_of_bits (bits_of_hex h) 0 None with
   | None -> Z0
   | Some p -> if neg then Zneg p else Zpos p
 
-let hex_of_pos (p : positive) : string =
+let hex_of_pos (p : positive) : Stdlib.String.t =
   (* collect bits least significant first *)
   let rec bits p acc = match p with
     | XH -> 1 :: acc
@@ -53,7 +53,7 @@ let hex_of_pos (p : positive) : string =
   done;
   Bytes.to_string b
 
-let hex_of_z (x : z) : string = match x with
+let hex_of_z (x : z) : Stdlib.String.t = match x with
   | Z0 -> "0"
   | Zpos p -> hex_of_pos p
   | Zneg p -> "-" ^ hex_of_pos p
@@ -67,12 +67,12 @@ let int_of_z (x : z) : int = int_of_string ("0x0" ^ (match x with Zneg _ -> "" |
 let z_of_int (i : int) : z = z_of_hex (if i < 0 then Printf.sprintf "-%x" (-i) else Printf.sprintf "%x" i)
 
 let split_on c s = if s = "" || s = "-" && false then [] else String.split_on_char c s
-let zlist_of_string (s : string) : z list = if s = "" || s = "_" then [] else List.map z_of_hex (String.split_on_char ',' s)
-let string_of_zlist (l : z list) : string = if l = [] then "_" else String.concat "," (List.map hex_of_z l)
+let zlist_of_string (s : Stdlib.String.t) : z list = if s = "" || s = "_" then [] else List.map z_of_hex (String.split_on_char ',' s)
+let string_of_zlist (l : z list) : Stdlib.String.t = if l = [] then "_" else String.concat "," (List.map hex_of_z l)
 let string_of_bool b = if b then "1" else "0"
 
 (* main loop: one request per line, fields separated by single spaces *)
-let serve (handle : string list -> string) : unit =
+let serve (handle : Stdlib.String.t list -> Stdlib.String.t) : unit =
   (try
      while true do
        let line = input_line stdin in
